@@ -24,6 +24,7 @@ import CppUtil.Props.C01
 import CppUtil.Proofs.WLockMore
 import CppUtil.Proofs.WLockLive
 import CppUtil.Proofs.WLockLive2
+import CppUtil.Proofs.WLockLive3
 import CppUtil.Proofs.McsProgress
 import CppUtil.Props.McsProto
 
@@ -225,6 +226,65 @@ theorem c02_closed_system_conv_steps (P : WParams) (scs : List Script) (nvs : Li
 /-- non-vacuity with conversions: an upgrader, a reader and a downgrader on an OptimisticLock, 40 round-robin rounds -/
 theorem c02_fair_termination_conv_nonvacuous :
     ((exec2 (Gen.opt 1) [.sixUp, .plain .S, .xDown] [] (initK 3) (List.replicate 40 [0, 1, 2]).flatten).agents.all
+      (fun l => match l with | .done _ => true | _ => false)) = true := by
+  decide +kernel
+
+/-- **fair termination of client programs on one lock, PessimisticLock.**  `k` requests; request `i` runs `scs[i]`
+    (`Lock<m>; release`, `LockSIX; UpgradeToX; release` or `LockX; DowngradeToSIX; release`) and may depend on an earlier
+    request `preds[i]` — the previous request of the same thread — which must be done before it starts (no nesting on the
+    lock).  Every schedule of more than `6k(2k+1) + 2k` rounds ends with every request done and the lock free. -/
+theorem c02_fair_termination_programs_pess (r k : Nat) (hk : k < 2 ^ 62) (scs : List Script) (preds : List (Option Nat))
+    (hpred : ∀ i j, preds.getD i none = some j → j < i) (nvs : List (BitVec 32))
+    (segs : List (List Nat)) (hall : ∀ seg ∈ segs, ∀ j, j < k → j ∈ seg)
+    (hlen : 6 * k * (2 * k + 1) + 2 * k < segs.length) :
+    (∀ l ∈ (Seq.exec2 (Gen.pess r) scs preds nvs (initK k) segs.flatten).agents, ∃ w, l = Loc.done w) ∧
+    (Gen.pess r).lockGuard .X (Seq.exec2 (Gen.pess r) scs preds nvs (initK k) segs.flatten).w = true := by
+  have hS := pess_specs r
+  have h1 := wl2_init hS scs k (by simpa [pessDecoder] using hk)
+  have h0 : Seq.WL2 (Gen.pess r) pessDecoder scs k (initK k) := ⟨h1.inv, h1.closed, h1.len, h1.cap⟩
+  have hfin := Seq.wl2_exec hS scs preds nvs segs.flatten h0
+  have hpsi : Seq.psi2 scs (initK k) ≤ 6 * k * (2 * k + 1) + 2 * k := psi2_init_le scs k
+  have hz := Seq.rounds_finish2 hS scs preds nvs hpred segs h0 hall (Nat.lt_of_le_of_lt hpsi hlen)
+  have hdone : ∀ l ∈ (Seq.exec2 (Gen.pess r) scs preds nvs (initK k) segs.flatten).agents, ∃ w, l = Loc.done w := by
+    intro l hl
+    obtain ⟨i, hi, hil⟩ := List.getElem_of_mem hl
+    exact Seq.done_of_phases2_zero hfin.closed hz i l (by rw [List.getElem?_eq_getElem hi, hil])
+  refine ⟨hdone, ?_⟩
+  have hq : ∀ l ∈ (Seq.exec2 (Gen.pess r) scs preds nvs (initK k) segs.flatten).agents, l.grant? = none := by
+    intro l hl; obtain ⟨w, rfl⟩ := hdone l hl; rfl
+  exact (quiescent_free hS hfin.inv hq).2.2.2
+
+/-- the same for OptimisticLock -/
+theorem c02_fair_termination_programs_opt (r k : Nat) (hk : k < 2 ^ 30) (scs : List Script) (preds : List (Option Nat))
+    (hpred : ∀ i j, preds.getD i none = some j → j < i) (nvs : List (BitVec 32))
+    (segs : List (List Nat)) (hall : ∀ seg ∈ segs, ∀ j, j < k → j ∈ seg)
+    (hlen : 6 * k * (2 * k + 1) + 2 * k < segs.length) :
+    (∀ l ∈ (Seq.exec2 (Gen.opt r) scs preds nvs (initK k) segs.flatten).agents, ∃ w, l = Loc.done w) ∧
+    (Gen.opt r).lockGuard .X (Seq.exec2 (Gen.opt r) scs preds nvs (initK k) segs.flatten).w = true := by
+  have hS := opt_specs r
+  have h1 := wl2_init hS scs k (by simpa [optDecoder] using hk)
+  have h0 : Seq.WL2 (Gen.opt r) optDecoder scs k (initK k) := ⟨h1.inv, h1.closed, h1.len, h1.cap⟩
+  have hfin := Seq.wl2_exec hS scs preds nvs segs.flatten h0
+  have hpsi : Seq.psi2 scs (initK k) ≤ 6 * k * (2 * k + 1) + 2 * k := psi2_init_le scs k
+  have hz := Seq.rounds_finish2 hS scs preds nvs hpred segs h0 hall (Nat.lt_of_le_of_lt hpsi hlen)
+  have hdone : ∀ l ∈ (Seq.exec2 (Gen.opt r) scs preds nvs (initK k) segs.flatten).agents, ∃ w, l = Loc.done w := by
+    intro l hl
+    obtain ⟨i, hi, hil⟩ := List.getElem_of_mem hl
+    exact Seq.done_of_phases2_zero hfin.closed hz i l (by rw [List.getElem?_eq_getElem hi, hil])
+  refine ⟨hdone, ?_⟩
+  have hq : ∀ l ∈ (Seq.exec2 (Gen.opt r) scs preds nvs (initK k) segs.flatten).agents, l.grant? = none := by
+    intro l hl; obtain ⟨w, rfl⟩ := hdone l hl; rfl
+  exact (quiescent_free hS hfin.inv hq).2.2.2
+
+theorem c02_programs_steps (P : WParams) (scs : List Script) (preds : List (Option Nat)) (nvs : List (BitVec 32)) (s : St) (i : Nat) :
+    Seq.adv2 P scs preds nvs s i = s ∨ ∃ a e, step P s a = some (Seq.adv2 P scs preds nvs s i, e) :=
+  Seq.adv2_is_step scs preds nvs s i
+
+/-- non-vacuity: thread A = [LockX; unlock] then [LockS; unlock] (request 1 depends on request 0), thread B =
+    [LockSIX; UpgradeToX; unlock]; 60 round-robin rounds on an OptimisticLock -/
+theorem c02_fair_termination_programs_nonvacuous :
+    ((Seq.exec2 (Gen.opt 1) [.plain .X, .plain .S, .sixUp] [none, some 0, none] [] (initK 3)
+        (List.replicate 60 [0, 1, 2]).flatten).agents.all
       (fun l => match l with | .done _ => true | _ => false)) = true := by
   decide +kernel
 
